@@ -38,7 +38,7 @@ META = {
     "rule": "4-40 headers per run, 30-100 % ITPs, random 27-bit payloads (biased to all-ones / single high bits), "
             "valid gaps 0-6 cycles, second-consumer stalls 0-5 cycles; thin schedule space (handshake timing only)",
 }
-TIERS = {"quick": {"runs": 8000, "wall": 70}, "thorough": {"runs": 90000, "wall": 900}}
+TIERS = {"quick": {"runs": 24000, "wall": 70}, "thorough": {"runs": 90000, "wall": 900}}
 
 MAX_LATENCY = 4
 ACCEPT_BOUND = 8
